@@ -57,7 +57,10 @@ func (d *Dir) Write(files map[string][]byte) error {
 		return err
 	}
 
-	if err := os.MkdirAll(newDir, os.ModePerm); err != nil {
+	// Mkdir, not MkdirAll: the directory must be ours alone. Should it exist already
+	// (two Writes reading the same nanosecond) it is the live version, which this call
+	// must neither write into nor remove when it fails.
+	if err := os.Mkdir(newDir, os.ModePerm); err != nil {
 		return err
 	}
 
